@@ -54,6 +54,11 @@ def csnap(I, o):
 def features(c):
     """what the history exercises (computed from the script alone)"""
     open_, f = {}, set()
+    ws = c.get("via") == "ws"
+    if ws:
+        f.add("through_relay_servehttp")
+    hdr = {}          # live session -> X-Request-Id of its upgrade request
+    kinds = set()
     for g in (c.get("groups") or []):
         if len(g) > 1:
             f.add("concurrent_group")
@@ -61,10 +66,17 @@ def features(c):
             sid = s["s"]
             if s["op"] == "start":
                 open_[sid] = set()
+                if ws and s.get("hdr"):
+                    if s["hdr"] in hdr.values():
+                        f.add("live_sessions_with_equal_request_id_header")
+                        if any(open_.get(o) for o, h in hdr.items() if h == s["hdr"]):
+                            f.add("equal_request_id_header_while_subscriptions_open")
+                    hdr[sid] = s["hdr"]
             elif s["op"] == "end":
                 if open_.get(sid):
                     f.add("end_with_open")
                 open_.pop(sid, None)
+                hdr.pop(sid, None)
             elif s["op"] == "dead":
                 f.add("dead_on_arrival")
             else:
@@ -84,6 +96,13 @@ def features(c):
                     f.add("eose_open")
                 elif t == "OTHER":
                     f.add("undefined_type")
+                if s["op"] == "c" and t == "EVENT":
+                    k = int(m.get("kind", 0))
+                    if not 0 <= k <= 65535:
+                        f.add("kind_outside_0_65535")
+                    if any(k2 != k and (k2 - k) % 65536 == 0 for k2 in kinds):
+                        f.add("kinds_congruent_modulo_65536")
+                    kinds.add(k)
     if len(open_) > 1:
         pass
     return f
@@ -104,16 +123,28 @@ class C19(Prop):
             "injected concurrently) through the real NewPrometheusMiddleware with a fresh registry per case: start, end "
             "(inner handler returns / context cancelled / recv channel closed), client messages REQ CLOSE EVENT COUNT AUTH "
             "and an unknown type, server messages CLOSED EOSE EVENT OK NOTICE COUNT AUTH and an unknown type, subscription "
-            "ids from {a,b,c}, kinds from {0,1,7,30023,-1}; Registry.Gather() after every group; both sides of the "
-            "middleware recorded.  A case is non-trivial when its script exercises at least three of: repeated REQ of an "
+            "ids from {a,b,c}, kinds from {0,1,7,30023,-1} (62%) and {65535, 65536, 65537, 131073, -65535, 2^32, 2^32+1, 2^63-1, "
+            "-2^63} (kinds outside 0..65535 that agree with a smaller member modulo 2^16 or 2^32, and the ends of int64); "
+            "Registry.Gather() after every group; both sides of the "
+            "middleware recorded.  One tenth more histories use the transport 'ws': the sessions (2..5) are WebSocket connections "
+            "on the loopback interface served by the real Relay.ServeHTTP in front of the middleware, so that the session context "
+            "is the one the relay builds from the upgrade request; every start carries an X-Request-Id header from {none, r1, r1, "
+            "r2} (live sessions with equal headers are common); client messages REQ CLOSE COUNT (what the relay's reader "
+            "passes without signed events), server messages of every defined type; ends: inner handler returns / context "
+            "cancelled / client drops the connection; these cases run one at a time in worker processes (a panic in a "
+            "goroutine of the middleware is recorded as an unclean case).  A case is non-trivial when its script exercises at least three of: repeated REQ of an "
             "open id, CLOSE of an open id, CLOSE of an unknown id, CLOSED of an open id, CLOSED of an unknown id, EOSE for "
-            "an open id, a session ending with open subscriptions, an unknown message type, a concurrent group; "
+            "an open id, a session ending with open subscriptions, an unknown message type, a concurrent group, a kind outside "
+            "0..65535, two kinds congruent modulo 65536, the transport ws, live sessions with equal X-Request-Id headers (with "
+            "subscriptions open); "
             "distinct = distinct scripts")
     trusted_base = COMMON_TRUSTED + [
         "prometheus client_golang (Registry.Gather is the observation; counters and gauges are atomic)",
         "step granularity: one call of the middleware base per step; the six counters own disjoint state and each update is "
         "atomic (reqCounter under its mutex: g_prom_locks, C19_req_counter_locked), so finer interleavings add no states",
         "uuid.NewString() yields a fresh session key per session (a session id is live at most once at a time)",
+        "transport ws: coder/websocket client, net/http/httptest server on the loopback interface; over the wire a message "
+        "is identified by type and subscription id (one message per session in flight)",
     ]
     assumptions = [
         "well-formed histories: a session's steps lie between its Start and its End (what NewSimpleMiddleware guarantees: "
@@ -142,18 +173,31 @@ class C19(Prop):
 
     def nontrivial_key(self, c):
         if len(features(c)) >= 3:
-            return json.dumps(c.get("groups"), sort_keys=True)
+            return json.dumps([c.get("via") or "", c.get("groups")], sort_keys=True)
         return None
 
     def dedup_key(self, c):
         return json.dumps(sorted(features(c)))
 
     def summarize(self, c):
-        return {"groups": (c.get("groups") or [])[:12], "obs_last": (c.get("obs") or [None])[-1], "clean": c.get("clean")}
+        return {"via": c.get("via") or "handler API", "notes": c.get("notes"), "groups": (c.get("groups") or [])[:12], "obs_last": (c.get("obs") or [None])[-1], "clean": c.get("clean")}
 
     def shrink(self, c):
         groups = c.get("groups") or []
         base = {"groups": groups}
+        if c.get("via"):
+            # a simpler transport first, then everything below with the transport kept
+            yield {"groups": [[{k: v for k, v in s.items() if k != "hdr"} for s in g] for g in groups]}
+            for inner in self.shrink({"groups": groups}):
+                yield dict(inner, via=c["via"])
+            for i, g in enumerate(groups):
+                for j, s in enumerate(g):
+                    if s.get("hdr"):
+                        c2 = copy.deepcopy(base)
+                        c2["via"] = c["via"]
+                        del c2["groups"][i][j]["hdr"]
+                        yield c2
+            return
         # drop chunks of groups, large chunks first (the harness re-normalises: steps of sessions
         # whose start was dropped vanish)
         n = len(groups)
@@ -185,11 +229,12 @@ class C19(Prop):
 
     def distribution(self, cases):
         d = {"groups": 0, "steps": 0, "concurrent_groups": 0, "start": 0, "end": 0, "client": 0, "server": 0,
-             "sessions": 0, "unclean": 0, "dead_on_arrival": 0}
+             "sessions": 0, "unclean": 0, "dead_on_arrival": 0, "histories_through_relay_servehttp": 0}
         feats = {}
         for c in cases:
             d["groups"] += len(c.get("groups") or [])
             d["unclean"] += 0 if c.get("clean") else 1
+            d["histories_through_relay_servehttp"] += 1 if c.get("via") == "ws" else 0
             d["sessions"] += len(c.get("inner") or [])
             for g in (c.get("groups") or []):
                 d["steps"] += len(g)
